@@ -277,6 +277,9 @@ type srcHit struct {
 }
 
 // nondetSources lists references to nondeterminism sources in a file.
+// constants whose value differs between 32- and 64-bit builds
+var wordSized = map[string]bool{"math.MaxInt": true, "math.MinInt": true, "math.MaxUint": true, "strconv.IntSize": true, "math/bits.UintSize": true}
+
 func nondetSources(info *types.Info, f *ast.File) []srcHit {
 	var hits []srcHit
 	telemetryArg := map[ast.Node]bool{}
@@ -321,6 +324,8 @@ func nondetSources(info *types.Info, f *ast.File) []srcHit {
 					hits = append(hits, srcHit{obj.Pkg().Path() + "." + obj.Name(), why, x.Pos()})
 				} else if why, ok := bannedObjects[obj.Pkg().Name()+"."+obj.Name()]; ok && (obj.Pkg().Path() == "time" || obj.Pkg().Path() == "os" || obj.Pkg().Path() == "runtime") {
 					hits = append(hits, srcHit{obj.Pkg().Name() + "." + obj.Name(), why, x.Pos()})
+				} else if wordSized[obj.Pkg().Path()+"."+obj.Name()] {
+					hits = append(hits, srcHit{obj.Pkg().Path() + "." + obj.Name(), "value depends on the word size of the build (32 / 64 bit): nodes built for different architectures write different state", x.Pos()})
 				}
 			}
 		case *ast.BinaryExpr:
